@@ -12,13 +12,14 @@ pub mod boxedc;
 pub mod cgen;
 mod zdiv;
 pub mod fixed;
+pub mod surface;
 
 use vmodel::*;
 
 pub fn spec() -> PropSpec {
     PropSpec {
         id: "C07",
-        rule: "cases: a modulus p from the classes {1, 2, 3, 2^B-1, 2^(B-1), 2^(B-1)±1, MAX-1, ~2^B/3, small primes, zero high limbs, 2^B-c (c in {1,2,3,2^32,2^63(±1),MAX-1,MAX,primes,edge words,uniform}), top-limb edge, patterned/random, uniform with top bit set} (forced odd for mul/halve sub-checks) and a residue pair a,b<p built as x mod p from {0,1,p-1,floor/ceil(p/2),p-2,random} x itself, a=b, a+b=p, a+b=p±1, patterned value + related value (±1, !, -, >>1, <<1), both operands p-1-small (sums that overflow 2^B), a=p-1 with patterned b, a=0; every form of the width (inherent, trait, by either operand order, squares/doubles, special-modulus forms whenever p=2^B-c with one-limb c, Monty/ConstMonty/BoxedMonty div_by_2) is checked against the BigUint residue. non-trivial: a+b >= 2^B (the unreduced sum overflows the width), or a+b == p, or a negated operand is 0, or p has at least one zero high limb (width >= 2 limbs), or a special-modulus form runs with c >= 2^63; additionally, in mul/halve sub-checks: a*b >= 2^B, or a halved operand x is odd with x+p >= 2^B (carry re-inserted). distinct by (width, [c,] p, a, b[, params constructor]).",
+        rule: "cases: a modulus p from the classes {1, 2, 3, 2^B-1, 2^(B-1), 2^(B-1)±1, MAX-1, ~2^B/3, small primes, zero high limbs, 2^B-c (c in {1,2,3,2^32,2^63(±1),MAX-1,MAX,primes,edge words,uniform}), top-limb edge, patterned/random, uniform with top bit set} (forced odd for mul/halve sub-checks) and a residue pair a,b<p built as x mod p from {0,1,p-1,floor/ceil(p/2),p-2,random} x itself, a=b, a+b=p, a+b=p±1, patterned value + related value (±1, !, -, >>1, <<1), both operands p-1-small (sums that overflow 2^B), a=p-1 with patterned b, a=0; every form of the width (inherent, trait, by either operand order, squares/doubles, special-modulus forms whenever p=2^B-c with one-limb c, Monty/ConstMonty/BoxedMonty div_by_2) is checked against the BigUint residue. non-trivial: a+b >= 2^B (the unreduced sum overflows the width), or a+b == p, or a negated operand is 0, or p has at least one zero high limb (width >= 2 limbs), or a special-modulus form runs with c >= 2^63; additionally, in mul/halve sub-checks: a*b >= 2^B, or a halved operand x is odd with x+p >= 2^B (carry re-inserted). distinct by (width, [c,] p, a, b[, params constructor]). surface/* sub-checks (API-surface audit): the same generators, oracle and rule at 5 and 7 limbs, through generic functions bounded by the traits, and for the documented panic of Uint::mul_mod / BoxedUint::mul_mod on an even p (every documented-panic case counts as non-trivial).",
         assumptions: vec![
             "num-bigint add / mul / rem are correct (independent implementation)".into(),
             "bridging uses from_words / as_words only".into(),
@@ -61,5 +62,7 @@ fn subchecks(_ctx: &Ctx) -> Vec<SubCheck> {
     v.push(SubCheck::new("boxed/special/1..=20", 600000, boxedc::special_case).tape(200).thorough(10));
     v.push(SubCheck::new("boxed/mul+halve/1..=20", 400000, boxedc::mul_case).tape(200).thorough(10));
     v.extend(zdiv::subchecks());
+    // API-surface audit (/verif/audit/E.md): appended last so that existing sub-check indices stay stable
+    v.extend(surface::subchecks());
     v
 }
